@@ -67,6 +67,22 @@ def gen_assignment(rng, P):
 
 def gen(rng, tier):
     P = pool()
+    # each re-spelled identifier in EVERY syntactic position the grammar gives it - in particular as a function argument
+    # (ValueType parameters of match / search / length / value, NodesType of count), a comparison operand, a test
+    kdoc = {"ab": 1, "abc": 2, "x": [10, 20], "": 0, "k": {"ab": 1, "z": 2}}
+    ctx = dict(Q.CTX, ab="ab", pat="a.")
+    exprs = [["fn", "match", "key", ["lit", "ab."]], ["fn", "search", "key", ["lit", "^a"]], ["op", "==", ["fn", "length", "key"], ["lit", 2]],
+             ["op", "==", ["fn", "value", ["self"]], "key"], ["fn", "match", "key", ["ctx", ["sel", ["name", "pat"]]]],
+             ["op", ">", ["fn", "count", ["root", False, ["sel", "wild"]]], ["fn", "length", "key"]],
+             ["op", "==", ["fn", "length", ["ctx", ["sel", ["name", "ab"]]]], ["fn", "length", "key"]],
+             ["op", "in", "key", ["list", ["lit", "ab"], ["lit", 0]]], ["fn", "search", ["self", ["sel", ["name", "ab"]]], ["lit", "1"]],
+             ["op", "&&", ["not", ["fn", "match", "key", ["lit", "x"]]], ["op", "!=", "key", ["lit", 0]]]]
+    for j, e in enumerate(exprs):
+        for pre in ([], ["desc"], [["list", ["name", "k"]]]):
+            q = {"first": {"fake": False, "segs": pre + [["list", ["filter", e]]]}, "rest": []}
+            for tok in (None, gen_assignment(rng, P), gen_assignment(rng, P), {"root": "$$", "fake": "^", "self": "@@", "key": "%", "union": "|", "inter": "&", "fctx": "__", "keys": "~~"},
+                        {"root": "$", "fake": "^", "self": "@", "key": "##", "union": "|", "inter": "&", "fctx": "_", "keys": "~"}):
+                yield {"query": q, "docs": [kdoc, [kdoc, "ab"]], "ctx": ctx, "env": tok, "seed": 100 + j}
     n = 6000 if tier == "thorough" else 600
     for i in range(n):
         docs = [gen_container(rng, 3, 3, NAMES) for _ in range(2)]
